@@ -4,6 +4,7 @@ Props/C11.lean — liveness needs fresh evidence; steady heartbeats are never fl
 import ChitchatModel.Lemmas.FD
 import ChitchatModel.Lemmas.AL
 import ChitchatModel.Model.Chitchat
+import ChitchatModel.Lemmas.Heartbeat
 namespace Chitchat
 
 theorem reportBase_of_present (n : Node) (i : Id) (hb : Nat) (s : NodeState)
@@ -119,5 +120,19 @@ theorem C11_reset_keeps_heartbeat (s : NodeState) (g : Nat) :
 
 /-! ### Non-vacuity -/
 example : (⟨[4, 5, 4], some 100⟩ : Window).alive ⟨8, 1, 1000, 10, 5, 100⟩ 105 = true := by decide
+
+/-- **C11 (digest heartbeats feed the detector).** Every heartbeat carried by a digest (distinct
+members) reaches the node's copy of that member — the copy exists afterwards with a heartbeat at
+least as high — except for the local member itself and for a member that was removed with a
+remembered heartbeat at least as high (C12's guard). No entry is lost because of another entry. -/
+theorem C11_digest_heartbeats_reach (n : Node) (d : Digest) (now : Nat) (hnd : (d.map (·.1)).Nodup)
+    (p : Id × NodeDigest) (hp : p ∈ d) (hself : p.1 ≠ n.cfg.selfId) (hnb : ¬ n.blocked p.1 p.2.heartbeat) :
+    p.2.heartbeat ≤ (n.reportHeartbeatsInDigest d now).hbOf p.1 :=
+  digest_heartbeats_reach d now hnd n p hp hself hnb
+
+/-- Copies' heartbeats never decrease while a digest is processed. -/
+theorem C11_digest_heartbeats_monotone (n : Node) (d : Digest) (now : Nat) (j : Id) :
+    n.hbOf j ≤ (n.reportHeartbeatsInDigest d now).hbOf j :=
+  hbOf_digest_mono d now j n
 
 end Chitchat
